@@ -361,20 +361,24 @@ def run_partition(args):
 
 
 def main(run: Run):
-    writes = run.pick(2, 3)
-    READS[:] = run.pick(READS_QUICK, READS_ALL)  # before forking the workers
+    # quick: <= 2 writes with the short read list; thorough: <= 3 writes with the short read list AND <= 2 writes with every read
+    passes = [(2, READS_QUICK)] if not run.thorough else [(3, READS_QUICK), (2, READS_ALL)]
+    writes = max(w for w, _ in passes)
     world = make_world()
-    jobs = []
-    for sn in (SEEDS if run.thorough else [k for k in SEEDS if k != "two-collaterals-before-shock"]):
-        ctx = seeded_build(world, sn)()
-        labels = [o.label for o in alphabet(world, writes)(ctx)]
-        jobs += [(run.seed, writes, frozenset([l]), sn) for l in labels]
-    jobs = run.rotate(jobs)
     tot = {"states": 0, "transitions": 0, "complete": 0}
-    for r in pmap(run_partition, jobs):
-        run.merge(r)
-        for k in tot:
-            tot[k] += r["stats"][k]
+    for writes_p, reads_p in passes:
+        READS[:] = reads_p  # before forking the workers
+        jobs = []
+        for sn in (SEEDS if run.thorough else [k for k in SEEDS if k != "two-collaterals-before-shock"]):
+            ctx = seeded_build(world, sn)()
+            labels = [o.label for o in alphabet(world, writes_p)(ctx)]
+            jobs += [(run.seed, writes_p, frozenset([l]), sn) for l in labels]
+        jobs = run.rotate(jobs)
+        for r in pmap(run_partition, jobs):
+            run.merge(r)
+            for k in tot:
+                tot[k] += r["stats"][k]
+    READS[:] = sorted(set(READS_QUICK) | (set(READS_ALL) if run.thorough else set()))
     cov = {
         "states": max(tot["states"], 1), "transitions": max(tot["transitions"], 1),
         "traces_validated_against_impl": tot["complete"],
@@ -386,7 +390,7 @@ def main(run: Run):
                 "cache fill pattern + bar. After every event all views are compared with the recomputation (on a snapshot).",
         "reads": run.counters.get("reads", 0), "writes_accepted": run.counters.get("writes_accepted", 0),
         "writes_rejected": run.counters.get("writes_rejected", 0), "liquidating_bars": run.counters.get("liquidating_bars", 0),
-        "exhaustive": True, "completed_bound": {"writes": writes},
+        "exhaustive": True, "completed_bound": {"passes": [{"writes": w, "reads": list(r)} for w, r in passes]},
     }
     return run.finish(cov, ["recomputation uses the harness's own index frames and risk table, never the market's caches",
                             "API quantisation to 1e-4 in get_market_balance is reproduced as a 1e-4 tolerance"])
